@@ -58,6 +58,7 @@ type rewriter struct {
 	doGo     bool
 	doFs     bool
 	doPid    bool
+	doTime   bool // time.Now() -> vshim.Now() (files named by time=...)
 	n        int
 	changed  bool
 	relFile  string
@@ -297,6 +298,13 @@ func (r *rewriter) exprs(n ast.Node) {
 					r.counts["pid"]++
 				}
 			}
+			if r.doTime {
+				if sel, ok := x.Fun.(*ast.SelectorExpr); ok && sel.Sel.Name == "Now" && r.isPkg(sel.X, "time") {
+					x.Fun = &ast.SelectorExpr{X: ident("vshim"), Sel: ident("Now")}
+					r.changed = true
+					r.counts["time"]++
+				}
+			}
 			if r.doFs {
 				if sel, ok := x.Fun.(*ast.SelectorExpr); ok {
 					if to, ok := fsFuncs[sel.Sel.Name]; ok && (r.isPkg(sel.X, "os") ||
@@ -426,11 +434,18 @@ func main() {
 	want := map[string]bool{}
 	syncFiles := map[string]bool{}
 	callRen := map[string]string{}
+	timeFiles := map[string]bool{}
 	for _, w := range strings.Split(*rewrites, ",") {
 		w = strings.TrimSpace(w)
 		if strings.HasPrefix(w, "sync=") {
 			for _, fn := range strings.Split(strings.TrimPrefix(w, "sync="), "+") {
 				syncFiles[fn] = true
+			}
+			continue
+		}
+		if strings.HasPrefix(w, "time=") {
+			for _, fn := range strings.Split(strings.TrimPrefix(w, "time="), "+") {
+				timeFiles[fn] = true
 			}
 			continue
 		}
@@ -478,7 +493,7 @@ func main() {
 			}
 			rel, _ := filepath.Rel(*repo, fname)
 			r := &rewriter{fset: p.Fset, info: p.TypesInfo, pkg: p,
-				doMap: want["map"], doGo: want["go"], doFs: want["fs"], doPid: want["pid"],
+				doMap: want["map"], doGo: want["go"], doFs: want["fs"], doPid: want["pid"], doTime: timeFiles[filepath.Base(fname)],
 				relFile: rel, counts: map[string]int{}}
 			func() {
 				defer func() {
@@ -514,7 +529,7 @@ func main() {
 						if is.Name != nil {
 							name = is.Name.Name
 						}
-						if (path == "os" || path == "io/ioutil" || path == "sync") && !pkgStillUsed(f, name) {
+						if (path == "os" || path == "io/ioutil" || path == "sync" || path == "time") && !pkgStillUsed(f, name) {
 							continue
 						}
 						keep = append(keep, s)
